@@ -138,6 +138,15 @@ pub struct WorldA {
     generators: BTreeMap<usize, MessageGenerator>,
 }
 
+/// A client application holding a textual measurement builds it with `From<&str>`; one holding
+/// bytes uses `new`. Both are public constructors and must agree.
+pub fn make_measurement(bytes: &[u8]) -> SingleMeasurement {
+    match std::str::from_utf8(bytes) {
+        Ok(s) => SingleMeasurement::from(s),
+        Err(_) => SingleMeasurement::new(bytes),
+    }
+}
+
 pub trait AOracle {
     fn on_sent(&mut self, _ctx: &mut Ctx, _w: &WorldA, _s: &Sent) -> Result<(), Violation> {
         Ok(())
@@ -225,7 +234,13 @@ impl WorldA {
         if gen.confusable {
             // family of confusable triples around one base string
             let blen = 2 + ctx.ch.index(12);
-            let base = ctx.ch.bytes(blen);
+            let mut base = ctx.ch.bytes(blen);
+            if ctx.ch.chance(1, 2) {
+                // textual measurements / epochs
+                for b in base.iter_mut() {
+                    *b = b'a' + (*b % 26);
+                }
+            }
             let t = (*ctx.ch.pick(&gen.thresholds)).max(gen.min_threshold);
             let mut cands: Vec<(Vec<u8>, Vec<u8>, u32)> = Vec::new();
             for i in 0..=base.len() {
@@ -462,19 +477,19 @@ impl WorldA {
             entropy[..burst.len()].copy_from_slice(&burst);
             let (gm, ge, gt, gaux) = (g.measurement.clone(), g.epoch.clone(), g.threshold, aux.clone());
             th.run(node, entropy, move || {
-                let mg = MessageGenerator::new(SingleMeasurement::new(&gm), gt, &ge);
+                let mg = MessageGenerator::new(make_measurement(&gm), gt, &ge);
                 let m = Message::generate(&mg, &rnd, gaux.as_ref().map(|a| AssociatedData::new(a))).map_err(|e| e.to_string())?;
                 Ok::<(Vec<u8>, Message), String>((m.to_bytes(), m))
             })
         } else if self.reuse_generators {
-            let mg = self.generators.entry(g.id).or_insert_with(|| MessageGenerator::new(SingleMeasurement::new(&g.measurement), g.threshold, &g.epoch));
+            let mg = self.generators.entry(g.id).or_insert_with(|| MessageGenerator::new(make_measurement(&g.measurement), g.threshold, &g.epoch));
             ctx.os.with_node_prefix(node as u64, burst, || {
                 let m = Message::generate(mg, &rnd, aux.as_ref().map(|a| AssociatedData::new(a))).map_err(|e| e.to_string())?;
                 Ok::<(Vec<u8>, Message), String>((m.to_bytes(), m))
             })
         } else {
             ctx.os.with_node_prefix(node as u64, burst, || {
-                let mg = MessageGenerator::new(SingleMeasurement::new(&g.measurement), g.threshold, &g.epoch);
+                let mg = MessageGenerator::new(make_measurement(&g.measurement), g.threshold, &g.epoch);
                 let m = Message::generate(&mg, &rnd, aux.as_ref().map(|a| AssociatedData::new(a))).map_err(|e| e.to_string())?;
                 Ok::<(Vec<u8>, Message), String>((m.to_bytes(), m))
             })
@@ -516,7 +531,7 @@ impl WorldA {
                     let g = self.groups[self.clients[c].group].clone();
                     match g.src {
                         RandSrc::Local => {
-                            let mg = MessageGenerator::new(SingleMeasurement::new(&g.measurement), g.threshold, &g.epoch);
+                            let mg = MessageGenerator::new(make_measurement(&g.measurement), g.threshold, &g.epoch);
                             let mut rnd = [0u8; 32];
                             mg.sample_local_randomness(&mut rnd);
                             self.report(ctx, c, rnd, oracle)?;
